@@ -39,13 +39,14 @@ type c18Fault struct {
 }
 
 type c18Case struct {
-	Base   string    `json:"base"`
-	Shard  int       `json:"shard"`
-	NShard int       `json:"nshard"`
-	Stride int       `json:"stride"`
-	Phase  int       `json:"phase"`
-	Only   *c18Fault `json:"only,omitempty"`
-	N      int       `json:"n,omitempty"` // ordinal of the probe inside its base (journal only; lets a collection run resume after a process death)
+	Base   string     `json:"base"`
+	Shard  int        `json:"shard"`
+	NShard int        `json:"nshard"`
+	Stride int        `json:"stride"`
+	Phase  int        `json:"phase"`
+	Only   *c18Fault  `json:"only,omitempty"`
+	Also   []c18Fault `json:"also,omitempty"` // further faults applied together with Only (multi-field cases)
+	N      int        `json:"n,omitempty"`    // ordinal of the probe inside its base (journal only; lets a collection run resume after a process death)
 }
 
 var c18Bases = []string{"fat12", "fat16", "fat32", "ext4", "ext4-csum", "ext4-mke2fs", "iso", "iso-rr", "sq-none", "sq-gzip"}
@@ -60,23 +61,38 @@ type c18Image struct {
 	baseAlloc uint64
 	baseTime  time.Duration
 	special   []c18Fault
+	cum       []int64     // cumulative lengths of readSet (multi-fault selectors)
 	scratch   *dev.Device // one device per base, damaged and restored around every probe (the walk never writes)
 }
 
-// damaged returns the base image with one fault applied, and the function that undoes it.
-func (im *c18Image) damaged(f c18Fault) (*dev.Device, func()) {
+// damaged returns the base image with the faults applied (in order), and the function that undoes them.
+func (im *c18Image) damaged(fs ...c18Fault) (*dev.Device, func()) {
 	if im.scratch == nil {
 		im.scratch = dev.FromBytes(im.bytes, im.size)
 	}
 	d := im.scratch
-	b := unhex(f.Hex)
-	end := f.Off + int64(len(b))
-	if end > im.size {
-		end = im.size
+	type undo struct {
+		off  int64
+		orig []byte
 	}
-	orig := append([]byte(nil), im.bytes[f.Off:end]...)
-	d.Poke(f.Off, b)
-	return d, func() { d.Poke(f.Off, orig) }
+	var undos []undo
+	for _, f := range fs {
+		b := unhex(f.Hex)
+		if f.Off < 0 || f.Off >= im.size {
+			continue
+		}
+		end := f.Off + int64(len(b))
+		if end > im.size {
+			end = im.size
+		}
+		undos = append(undos, undo{f.Off, append([]byte(nil), im.bytes[f.Off:end]...)})
+		d.Poke(f.Off, b[:end-f.Off])
+	}
+	return d, func() {
+		for i := len(undos) - 1; i >= 0; i-- {
+			d.Poke(undos[i].off, undos[i].orig)
+		}
+	}
 }
 
 var (
@@ -450,8 +466,12 @@ func panicSite(stack string) string {
 	return m[1] + "." + m[3]
 }
 
-func c18Probe(r *hx.Result, im *c18Image, f c18Fault) (opened bool) {
-	d, restore := im.damaged(f)
+func c18Probe(r *hx.Result, im *c18Image, f c18Fault, also ...c18Fault) (opened bool) {
+	all := append([]c18Fault{f}, also...)
+	if len(also) > 0 {
+		f.Label = fmt.Sprintf("%s together with %d more fault(s): %+v", f.Label, len(also), also)
+	}
+	d, restore := im.damaged(all...)
 	defer restore()
 	// "out of proportion": more than 32x the image plus 32 MiB of heap at any one moment. The sum of
 	// all allocations is an upper bound of that peak and is free to measure, so it decides the common
@@ -473,7 +493,7 @@ func c18Probe(r *hx.Result, im *c18Image, f c18Fault) (opened bool) {
 		// device, with three times the budget; only a second miss counts
 		// the first attempt may still be running on the shared device: leave that one to it
 		im.scratch = nil
-		d3, restore3 := im.damaged(f)
+		d3, restore3 := im.damaged(all...)
 		defer restore3()
 		limit *= 3
 		fin = hx.WithTimeout(limit, func() { hx.Safe(func() { werr = c18Walk(im.kind, d3, im.size) }) })
@@ -556,6 +576,51 @@ func peakHeap(f func()) uint64 {
 	return 0
 }
 
+// c18Minimise restores changed bytes of a failing fault one at a time while the probe keeps failing; it
+// returns the reduced fault, the number of bytes it still changes, and the result of its probe.
+func c18Minimise(im *c18Image, f c18Fault, first hx.Result) (c18Fault, int, hx.Result) {
+	val := unhex(f.Hex)
+	cur := append([]byte(nil), val...)
+	orig := im.bytes[f.Off : f.Off+int64(len(val))]
+	changed := func(b []byte) int {
+		n := 0
+		for i := range b {
+			if b[i] != orig[i] {
+				n++
+			}
+		}
+		return n
+	}
+	best := first
+	for i := range cur {
+		if cur[i] == orig[i] || changed(cur) == 1 {
+			continue
+		}
+		try := append([]byte(nil), cur...)
+		try[i] = orig[i]
+		var pr hx.Result
+		c18Probe(&pr, im, c18Fault{Off: f.Off, Hex: hexs(try)})
+		if pr.Failed() {
+			cur, best = try, pr
+		}
+	}
+	// report the single changed byte on its own
+	k := changed(cur)
+	if k == 1 {
+		for i := range cur {
+			if cur[i] != orig[i] {
+				nf := c18Fault{Off: f.Off + int64(i), Hex: hexs(cur[i : i+1])}
+				var pr hx.Result
+				c18Probe(&pr, im, nf)
+				if pr.Failed() {
+					return nf, 1, pr
+				}
+			}
+		}
+	}
+	return c18Fault{Off: f.Off, Hex: hexs(cur)}, k, best
+}
+
 var (
 	c18Collected  = map[string]string{}
 	c18CollectedN = map[string]int{}
@@ -576,17 +641,18 @@ func execC18(ci any) (r hx.Result) {
 	skip, _ := strconv.Atoi(os.Getenv("VERIF_C18_SKIP"))
 	probeNo, refused := 0, 0
 	defer func() { hx.AddExtra("C18", "refused_at_open:"+c.Base, refused) }()
-	run := func(f c18Fault) bool {
+	run := func(f c18Fault, also ...c18Fault) bool {
 		probeNo++
 		if probeNo <= skip {
 			return true
 		}
 		one := c
 		one.Only = &f
+		one.Also = also
 		one.N = probeNo
 		hx.JournalSub("C18", one)
 		var pr hx.Result
-		opened := c18Probe(&pr, im, f)
+		opened := c18Probe(&pr, im, f, also...)
 		r.Sub++
 		if opened {
 			r.SubNT++ // the image was accepted at open, so the walk ran on damaged structures
@@ -611,6 +677,24 @@ func execC18(ci any) (r hx.Result) {
 				c18Mu.Unlock()
 				return true
 			}
+			// The statement speaks of ONE corrupted field. A word of the sweep may straddle two adjacent fields,
+			// so the fault is reduced to the fewest changed bytes that still fail: a single byte lies inside one
+			// field whatever the format; a fault built from the format (a FAT entry) is one field by construction.
+			// What needs several bytes of a word is recorded, not reported: it may be two fields.
+			if len(also) == 0 && f.Label == "" {
+				mf, k, mr := c18Minimise(im, f, pr)
+				if k > 1 {
+					r.Class("needs-several-bytes-of-a-word:not-judged")
+					r.Note("%s: fails only with %d bytes of the word at offset %d changed (%s -> %s): may span two fields, not judged [%s]", c.Base, k, f.Off, hexs(im.bytes[f.Off:f.Off+int64(len(unhex(f.Hex)))]), f.Hex, mr.Sig)
+					hx.AddExtra("C18", "not_judged_multi_byte:"+c.Base, 1)
+					return true
+				}
+				f, pr = mf, mr
+				one.Only = &f
+			} else if len(also) > 0 {
+				r.Class("several-faults:not-judged")
+				return true
+			}
 			r.Viol, r.Sig = pr.Viol, pr.Sig
 			r.ReplayCase = one
 			return false
@@ -618,8 +702,11 @@ func execC18(ci any) (r hx.Result) {
 		return true
 	}
 	if c.Only != nil {
-		run(*c.Only)
-		r.Nontrivial = true
+		run(*c.Only, c.Also...)
+		r.Nontrivial = r.SubNT > 0
+		if len(c.Also) > 0 {
+			r.Class(fmt.Sprintf("faults:%d", 1+len(c.Also)))
+		}
 		return
 	}
 	stride := c.Stride
@@ -663,7 +750,7 @@ func execC18(ci any) (r hx.Result) {
 }
 
 func init() {
-	hx.Register(&hx.Spec{ID: "C18", Exec: execC18, New: func() any { return new(c18Case) },
+	hx.Register(&hx.Spec{ID: "C18", Gen: genC18Multi, Exec: execC18, New: func() any { return new(c18Case) },
 		Rule: "case = base image (fat12, fat16, fat32, ext4 with and without metadata_csum, ext4 made by mke2fs, iso9660 plain and Rock Ridge, squashfs uncompressed and gzip), evaluations = corruptions applied to it: for every byte range the reader consumes during a clean open + walk + read-everything (minus file payload), every aligned 1/2/4/8-byte word x {0, 1, 0x7F.., 0x80.., 0xFF.., max-1, original+-1, original^0x80, original<<1, image size in bytes / sectors / blocks, and for 1/2/4-byte words the values of the two neighbouring words and those +-1}, plus FAT chain self-links, 2-cycles, out-of-range, free and reserved links in either FAT copy; enumerated, not sampled (quick: a strided, seeded subset; thorough: all); every member is distinct (a different word or value); non-trivial = the damaged image is still accepted at open, so listing and reading run on damaged structures (probes refused at open are counted per base under refused_at_open)"})
 }
 
